@@ -211,63 +211,63 @@ pub fn spec(id: &str) -> Option<PropSpec> {
             "C01",
             run_c01,
             "cases = byte choice sequences decoded into programs+histories (proptest vec<u8>, 25% seeded by shape templates); non-trivial = an observer's value changed between two reads AND (a node was re-observed after having been computed and unobserved, OR a bind re-ran, OR a map_ref input changed with equal projection); distinct = distinct decoded action trace",
-            [40_000, 1_000_000],
+            [600_000, 20_000_000],
             false
         ),
         "C02" => engine_spec!(
             "C02",
             run_c02,
             "cases as C01; non-trivial = a stabilise in which a bind closure re-ran and at least two user functions ran (a transient combination was possible); distinct = distinct decoded action trace",
-            [40_000, 1_000_000],
+            [600_000, 20_000_000],
             false
         ),
         "C03" => engine_spec!(
             "C03",
             run_c03,
             "cases = programs with (nested) binds, inner nodes exported and observed/subscribed; non-trivial = a bind re-ran while a node of its previous generation had an input that changed in the same stabilise (a stale run was possible); distinct = distinct decoded action trace",
-            [40_000, 1_000_000],
+            [600_000, 20_000_000],
             false
         ),
         "C04" => engine_spec!(
             "C04",
             run_c04,
             "cases = union of all engine profiles (all cutoff kinds, subscriptions with handler actions, writer nodes, observer churn), in release-like and debug-assertion builds; non-trivial = >=2 stabilises, a bind re-run or observer removal, and a handle dropped while its node was necessary; distinct = distinct decoded action trace",
-            [60_000, 1_500_000],
+            [400_000, 12_000_000],
             true
         ),
         "C05" => engine_spec!(
             "C05",
             run_c05,
             "cases as C01 with heavy observer churn (clones, drop of one/last clone, disallow); non-trivial = a variable was written after an observer had been removed in the same inter-stabilise period and user functions still ran for other observers; distinct = distinct decoded action trace",
-            [40_000, 1_000_000],
+            [600_000, 20_000_000],
             false
         ),
         "C06" => engine_spec!(
             "C06",
             run_c06,
             "cases = programs with every cutoff kind (default, Never, Always, fn, boxed, asymmetric) on any node incl. vars and map_with_old with arbitrary did_change; non-trivial = one stabilise containing both a suppressed result and a propagated change; distinct = distinct decoded action trace",
-            [40_000, 1_000_000],
+            [600_000, 20_000_000],
             false
         ),
         "C07" => engine_spec!(
             "C07",
             run_c07,
             "cases = histories with every observer handle read after every action and from inside node functions/handlers; non-trivial = a read happened between a write and the next stabilise and an observed value later changed; distinct = distinct decoded action trace",
-            [30_000, 600_000],
+            [500_000, 15_000_000],
             false
         ),
         "C08" => engine_spec!(
             "C08",
             run_c08,
             "cases = sequences of the five write operations outside stabilise, from writer node functions and from update handlers; non-trivial = at least two deferred writes were issued inside stabilise; distinct = distinct decoded action trace",
-            [30_000, 600_000],
+            [500_000, 15_000_000],
             false
         ),
         "C09" => engine_spec!(
             "C09",
             run_c09,
             "cases = subscribe/unsubscribe/observe/clone/drop/disallow histories on shared nodes with all cutoff kinds; non-trivial = an observer or subscription was added/removed on a node in a period after which the node's value did not change, with >=2 notifications delivered in the case; distinct = distinct decoded action trace",
-            [40_000, 800_000],
+            [600_000, 20_000_000],
             false
         ),
         _ => return None,
